@@ -125,7 +125,7 @@ Print Assumptions C01_exec_mono.
 (* ------------------------------------------------------------------------------------------
    The other branch points (Model/BranchPoints.v over Gen/GenBranch.v): the condition attached to
    an explored alternative pins down the behaviour it describes. *)
-From HV Require Import Gen.GenBranch Model.BranchPoints Proofs.BranchProofs.
+From HV Require Import Gen.GenBranch Gen.GenAssertBranch Model.BranchPoints Proofs.BranchProofs.
 
 (* address aliases: under a valuation satisfying an alternative's condition the symbolic address
    IS the alias it names (an existing account), or is none of the existing accounts *)
@@ -162,3 +162,12 @@ Theorem C01_symjump_halt_sound :
     jump_alternatives V chk valid dst = None -> path v -> ~ In (dst v) valid.
 Proof. exact jump_halt_sound. Qed.
 Print Assumptions C01_symjump_halt_sound.
+
+(* vm.assert*: a state that ends as a failed assertion only describes inputs on which the asserted
+   relation is indeed false *)
+Theorem C01_assert_failure_sound :
+  forall (V : Type) (chk : cnd V -> Z) (path : V -> Prop) (c k : cnd V) (v : V),
+    (forall c', chk c' = 0 -> forall v', path v' -> c' v' = false) ->
+    path v -> In (true, k) (assert_alternatives V chk c) -> k v = true -> c v = false.
+Proof. exact assert_failure_sound. Qed.
+Print Assumptions C01_assert_failure_sound.
